@@ -104,7 +104,7 @@ def mk_popen(ps, pid):
 
 class Cfg:
     def __init__(self, seed=0, slots=("A", "B"), max_objs=2, actions=(), clock=False,
-                 queries=("name",), numeric=False, use_iter=True, use_exit=True, max_denies=0, max_faults=0, create_time_event=False, sys_calls=(), oneshot=False, popen=False,
+                 queries=("name",), numeric=False, use_iter=True, use_exit=True, max_denies=0, max_faults=0, create_time_event=False, sys_calls=(), btime0=None, oneshot=False, popen=False,
                  own_pid=None, iterhold=False, comm=None):
         self.seed = seed
         base = 1000 + (seed % 9) * 13
@@ -127,7 +127,7 @@ class Cfg:
         self.create_time_event = create_time_event     # create_time() queries even without clock events
         self.max_faults = max_faults      # one-shot resource failures (EMFILE) of the next open() of /proc/<pid>/stat
         self.max_denies = max_denies      # permission faults: /proc/<pid>/stat of ONE incarnation becomes unreadable
-        self.btime0 = 1700000000 + (seed % 5) * 3600
+        self.btime0 = 1700000000 + (seed % 5) * 3600 if btime0 is None else btime0
         self.j0 = 500000 + (seed % 7) * 1000
 
 
